@@ -299,10 +299,12 @@ def crash (flags : List String) (line : String) : String :=
               match traceOfObs obs with
               | some tr => journalProblem tr
               | none => ["J: no I/O trace in the observation"]
-            let all := liveProblem ++ r1Problem ++ problems
+            let all := liveProblem ++ problems
             -- `bad-hyp`: no crash point shows wrong contents, but a hypothesis of the theorems fails on the real trace
-            if all.isEmpty then (if jProblem.isEmpty then "ok" else s!"bad-hyp restore_returns_checkpoint: {joinWith "; " jProblem}")
-            else s!"bad {joinWith "; " ((jProblem ++ all).take 6)} (+{(jProblem ++ all).length - min (jProblem ++ all).length 6} more)"
+            let hyp := jProblem ++ r1Problem
+            let hypThm := if jProblem.isEmpty then "acked_commit_is_durable" else "restore_returns_checkpoint"
+            if all.isEmpty then (if hyp.isEmpty then "ok" else s!"bad-hyp {hypThm}: {joinWith "; " hyp}")
+            else s!"bad {joinWith "; " ((all ++ hyp).take 6)} (+{(all ++ hyp).length - min (all ++ hyp).length 6} more)"
           | _, _ => "bad unparsable-observation"
     | _ => "bad-op"
   | _ => "bad-op"
